@@ -13,6 +13,8 @@ CONSTANTS
   MaxCrash = 1
   MaxRepeat = 1
   DetOrder = FALSE
+  Mults <- M1
+  SortedDel = "scan"
   MetKeyWraps = FALSE
   SkipTooBig = FALSE
   PqIdsLoaded = TRUE
